@@ -186,3 +186,89 @@ for _nm, _fl in (('ref_mpart_cd_value_name', 0), ('ref_mpart_cd_value_filename',
             '(also at the very end of the value); an unterminated value is refused and flagged',
         assumes=['the header lookup is replaced by a stub that returns the harness\' header (table look-up is C17)', 'bstr_dup_mem replaced by a constant-capacity model inside this TU', 'every allocation may fail (HTP_ERROR then, nothing asserted about the value)',
                  'values followed by further parameters are exercised (any tail) but only memory safety is asserted for them']))
+
+# ---- part header lines: a line that arrives in pieces is assembled into exactly the line that arrives whole ---------------------------------
+HL_H = r'''
+/* MODEL of the string builder used for part_header_pieces / part_data_pieces (bstr_builder.c is not under this unit): ordered pieces, copying, may fail */
+#define HLP 3
+typedef struct { unsigned char b[HLP][N]; size_t l[HLP]; size_t n; } hl_bb_t;
+static hl_bb_t hl_hdr[2], hl_dat[2]; static bstr_builder_t hl_bbh[2], hl_bbd[2];
+static hl_bb_t *hl_of(const bstr_builder_t *bb) { return bb == &hl_bbh[0] ? &hl_hdr[0] : bb == &hl_bbh[1] ? &hl_hdr[1] : bb == &hl_bbd[0] ? &hl_dat[0] : &hl_dat[1]; }
+htp_status_t hl_append(bstr_builder_t *bb, const void *data, size_t len) { hl_bb_t *m = hl_of(bb);
+  VASSERT(m->n < HLP && len <= N, "builder model capacity"); if (m->n >= HLP || len > N) return HTP_ERROR;
+  for (size_t i = 0; i < N; i++) if (i < len) m->b[m->n][i] = ((const unsigned char *) data)[i];
+  m->l[m->n] = len; m->n++; return HTP_OK; }
+size_t hl_size(const bstr_builder_t *bb) { return hl_of(bb)->n; }
+void hl_clear(bstr_builder_t *bb) { hl_of(bb)->n = 0; }
+bstr *hl_to_str(const bstr_builder_t *bb) { hl_bb_t *m = hl_of(bb);
+  bstr *r = malloc(sizeof(bstr) + 2 * N); if (r == NULL) return NULL;
+  size_t o = 0;
+  for (size_t p = 0; p < HLP; p++) if (p < m->n) for (size_t i = 0; i < N; i++) if (i < m->l[p] && o < 2 * N) ((unsigned char *) r)[sizeof(bstr) + o++] = m->b[p][i];
+  r->len = o; r->size = 2 * N; r->realptr = NULL; return r; }
+bstr *hl_dup_mem(const void *data, size_t len) {
+  if (len > 2 * N) return NULL;
+  bstr *b = malloc(sizeof(bstr) + 2 * N); if (b == NULL) return NULL;
+  b->len = len; b->size = 2 * N; b->realptr = NULL;
+  for (size_t i = 0; i < 2 * N; i++) if (i < len) ((unsigned char *) b)[sizeof(bstr) + i] = ((const unsigned char *) data)[i];
+  return b; }
+bstr *hl_add_mem(bstr *d, const void *data, size_t len) {                  /* folded continuation: appended when it fits the model capacity */
+  if (bstr_len(d) + len > 2 * N) return d;
+  for (size_t i = 0; i < N; i++) if (i < len) bstr_ptr(d)[bstr_len(d) + i] = ((const unsigned char *) data)[i];
+  d->len += len; return d; }
+/* stand-ins exchanged at the call sites by goto-instrument --replace-calls (the real functions are static parts of the same file and lead into header
+ * processing / file handling, which are not under this unit): asserted unreachable resp. recording */
+htp_status_t hl_process_headers(htp_multipart_part_t *part) { VASSERT(0, "header processing is not reached: the line is not the empty line"); return HTP_OK; }
+typedef struct { unsigned char b[2 * N]; size_t n; int calls; } hl_seen_t;
+static hl_seen_t hl_seen[2]; static int hl_run;
+htp_status_t hl_parse_header(htp_multipart_part_t *part, const unsigned char *data, size_t len) { hl_seen_t *s = &hl_seen[hl_run]; s->calls++; s->n = len;   /* sees the completed PREVIOUS line */
+  for (size_t i = 0; i < 2 * N; i++) if (i < len) s->b[i] = data[i];
+  return HTP_OK; }
+htp_status_t hl_file_hook(htp_multipart_part_t *part, const unsigned char *data, size_t len) { VASSERT(0, "line mode: no file data"); return HTP_OK; }
+typedef struct { unsigned char line[N]; size_t n; size_t k; unsigned char has_pending; } vin_t;
+static htp_mpartp_t hl_parser[2]; static htp_multipart_part_t hl_part[2];
+static void hl_setup(int r, int has_pending) {
+  hl_parser[r].part_header_pieces = &hl_bbh[r]; hl_parser[r].part_data_pieces = &hl_bbd[r]; hl_hdr[r].n = 0; hl_dat[r].n = 0;
+  hl_parser[r].current_part_mode = MODE_LINE; hl_parser[r].multipart.flags = 0; hl_part[r].parser = &hl_parser[r]; hl_part[r].type = MULTIPART_PART_UNKNOWN; hl_part[r].len = 0;
+  hl_parser[r].pending_header_line = has_pending ? hl_dup_mem("a:b", 3) : NULL;
+  hl_seen[r].calls = 0; hl_seen[r].n = 0; }
+static void hl_case(vin_t in, const size_t K) {
+  /* one part header line (not the empty line): 2..N bytes, its only LF is the last byte, at least one byte in front of the line ending */
+  VASSUME(in.n >= 2 && in.n <= N && K < in.n && in.line[in.n - 1] == '\n');
+  for (size_t i = 0; i < N; i++) if (i + 1 < in.n) VASSUME(in.line[i] != '\n');
+  VASSUME(in.line[0] != '\r' || in.n > 2);  VASSUME(!(in.n >= 2 && in.line[0] == '\r' && in.line[1] == '\n'));
+  int hp = in.has_pending & 1;
+  hl_setup(0, hp); hl_setup(1, hp);
+  if (hp && (hl_parser[0].pending_header_line == NULL || hl_parser[1].pending_header_line == NULL)) goto out;
+  static unsigned char b0[N], b1[N], b2[N];
+  for (size_t i = 0; i < N; i++) { b0[i] = in.line[i]; b1[i] = in.line[i]; b2[i] = i + K < N ? in.line[i + K] : 0; }
+  /* run 0: the line arrives whole;  run 1: first k bytes (not a line yet), then the rest (end of line) */
+  hl_run = 0; htp_status_t r0 = htp_mpart_part_handle_data(&hl_part[0], b0, in.n, 1);
+  hl_run = 1; htp_status_t r1a = htp_mpart_part_handle_data(&hl_part[1], b1, K, 0);
+  htp_status_t r1 = htp_mpart_part_handle_data(&hl_part[1], b2, in.n - K, 1);
+  if (r0 == HTP_ERROR || r1 == HTP_ERROR || r1a == HTP_ERROR) goto out;                 /* allocation failure */
+  bstr *p0 = hl_parser[0].pending_header_line, *p1 = hl_parser[1].pending_header_line;
+  VASSERT(p0 != NULL && p1 != NULL, "a non-empty header line is pending afterwards, however it arrived");
+  if (p0 != NULL && p1 != NULL) {
+    VASSERT(bstr_len(p0) == bstr_len(p1), "the pending header line has the same length whether the line arrived whole or in two pieces");
+    for (size_t i = 0; i < 2 * N; i++) if (i < bstr_len(p0) && i < bstr_len(p1)) VASSERT(bstr_ptr(p0)[i] == bstr_ptr(p1)[i], "... and the same bytes");
+    VASSERT(bstr_len(p0) == 0 || (bstr_ptr(p0)[bstr_len(p0) - 1] != '\n'), "the line ending is not part of the header line");
+  }
+  VASSERT(hl_seen[0].calls == hl_seen[1].calls && hl_seen[0].n == hl_seen[1].n && hl_seen[0].calls == (hp && !isspace(in.line[0]) ? 1 : 0), "a completed previous header line is handed to the header parser (once) in both runs alike");
+  VASSERT(hl_parser[0].multipart.flags == hl_parser[1].multipart.flags && hl_part[0].len == hl_part[1].len && hl_hdr[1].n == 0, "same anomaly flags, same raw length, nothing left in the piece store");
+out:
+  bstr_free(hl_parser[0].pending_header_line); bstr_free(hl_parser[1].pending_header_line);
+}
+void HARNESS(void) { VIN(vin_t);
+  if (in.k == 1) hl_case(in, 1); else if (in.k == 2) hl_case(in, 2); else if (in.k == 3 && N > 3) hl_case(in, 3); else if (in.k == 4 && N > 4) hl_case(in, 4); else if (in.k == 5 && N > 5) hl_case(in, 5);
+  CANARY(); }'''
+UNITS.append(U(
+    name='c14_part_header_line_pieces', props=['C14', 'C01'], kind='bounded', src=['htp_multipart.c'], link=['bstr.c', 'htp_util.c'],
+    pre_instrument=['--replace-calls', 'htp_mpart_part_process_headers:hl_process_headers', '--replace-calls', 'htp_mpartp_parse_header:hl_parse_header', '--replace-calls', 'htp_mpartp_run_request_file_data_hook:hl_file_hook'],
+    pre='#define bstr_builder_append_mem hl_append\n#define bstr_builder_size hl_size\n#define bstr_builder_clear hl_clear\n#define bstr_builder_to_str hl_to_str\n#define bstr_dup_mem hl_dup_mem\n#define bstr_add_mem hl_add_mem\n',
+    harness=HL_H, defs={'quick': {'N': 4}, 'thorough': {'N': 6}},
+    flags_add=['--unwind', '14', '--unwinding-assertions', '--memory-leak-check'], flags_del=['--unsigned-overflow-check'], timeout=(600, 2400), min_obl=50,
+    bound='part header lines of 2..N bytes (quick 4, thorough 6) over all byte values (new header line or folded continuation, CRLF or LF ending), every single cut position, with / without a pending previous line',
+    sub='real htp_mpart_part_handle_data in line mode, two runs: the line delivered whole vs. its first k bytes (not yet a line) and then the rest - the pending header line, '
+        'the anomaly flags and the raw length are identical; the line ending never becomes part of a header value ("identical for every chunking")',
+    assumes=['the string builder and bstr_dup_mem / bstr_add_mem are replaced by constant-capacity models inside this TU; htp_mpartp_parse_header is exchanged at its call sites for a recording stand-in',
+             'the empty line (end of the part headers) is excluded: it leads into header processing and file handling, which are not under this unit (their call sites are exchanged for stand-ins that assert unreachability)', 'no native replay (call-site exchange exists only in the goto program)']))
